@@ -48,6 +48,17 @@ where
         }
     }
 
+    /// Verification hook (only compiled with `--cfg etherparse_verif`): number of
+    /// streams under reassembly and number of recycled data / section buffers.
+    #[cfg(etherparse_verif)]
+    pub fn verif_counts(&self) -> (usize, usize, usize) {
+        (
+            self.active.len(),
+            self.finished_data_bufs.len(),
+            self.finished_section_bufs.len(),
+        )
+    }
+
     /// Add data from a sliced packet.
     pub fn process_sliced_packet(
         &mut self,
